@@ -25,8 +25,8 @@ def cond(k, neg=False, t1="", t2="", v1=("s", ""), v2=("s", ""), n=""):
             "v2": list(v2) if v2[0] == "s" else ["l", list(v2[1])], "n": n}
 
 
-def act(k, tags=(), v1="", sub="", days="7", secs="3600"):
-    return {"k": k, "tags": set(tags), "v1": v1, "sub": sub, "days": days, "secs": secs}
+def act(k, tags=(), v1="", sub="", days="7", secs="3600", lst=()):
+    return {"k": k, "tags": set(tags), "v1": v1, "sub": sub, "days": days, "secs": secs, "lst": list(lst)}
 
 
 def spaces(tier, prop):
@@ -83,6 +83,12 @@ def spaces(tier, prop):
     for tg in ([], [":subject"], [":subject", ":days"], [":days", ":from"], [":seconds"], [":subject", ":handle", ":mime"],
                [":subject", ":days", ":from", ":handle"]):
         acts.append(act("vacation", tg, "gone" if len(tg) != 1 else vals[-1], sub=vals[1]))
+    if prop != "C19":      # C19 claims positional strings and value-less tags only
+        acts += [act("setflag", lst=["\\Seen", "\\Flagged"]), act("addflag", lst=[vals[1], "@innerq", "@bslash"]),
+                 act("removeflag", lst=["@endbs"]), act("fileinto", [":flags"], "Folder", lst=["\\Seen", vals[2]]),
+                 act("fileinto", [":copy", ":flags", ":create"], vals[3], lst=["@innerq"]),
+                 act("vacation", [":addresses"], "gone", lst=["me@example.org", "@innerq"]),
+                 act("vacation", [":subject", ":addresses", ":days"], "gone", sub=vals[1], lst=["@comma"])]
     acts.append(act("vacation", [":days"], "zero days", days="0"))
     acts.append(act("vacation", [":seconds", ":subject"], "zero seconds", sub="s", secs="0"))
     return conds, acts
@@ -158,12 +164,12 @@ def api_act(a):
     if k == "fileinto":
         out = ["fileinto"] + [t for t in (":copy", ":create") if t in tags]
         if ":flags" in tags:
-            out += [":flags", "\\Seen"]
+            out += [":flags", [R.content_of(x) for x in a["lst"]] if a["lst"] else "\\Seen"]
         return tuple(out + [R.content_of(a["v1"])])
     if k == "redirect":
         return tuple(["redirect"] + ([":copy"] if ":copy" in tags else []) + [R.content_of(a["v1"])])
     if k in ("reject", "setflag", "addflag", "removeflag"):
-        return (k, R.content_of(a["v1"]))
+        return (k, [R.content_of(x) for x in a["lst"]] if a["lst"] else R.content_of(a["v1"]))
     if k == "vacation":
         out = ["vacation"]
         if ":subject" in tags:
@@ -178,6 +184,8 @@ def api_act(a):
             out += [":handle", "h1"]
         if ":mime" in tags:
             out += [":mime"]
+        if ":addresses" in tags:
+            out += [":addresses", [R.content_of(x) for x in a["lst"]]]
         return tuple(out + [R.content_of(a["v1"])])
     return (k,)
 
